@@ -183,7 +183,7 @@ class NoiseDevice:
     def hello_frame(self) -> bytes:
         body = b"\x01"
         if self.name is not None:
-            body += self.name.encode() + b"\x00"
+            body += (self.name if isinstance(self.name, bytes) else self.name.encode()) + b"\x00"  # bytes: a name that is not text
             if self.mac is not None:
                 body += self.mac.encode() + b"\x00"
         return outer(body)
